@@ -266,6 +266,12 @@ def run(ctx):
                     items[k] = ("res", None, [pdbgen.setcols(pdbgen.setcols(l, 22, 26, num), 26, 27, ic) for l in items[k][2]])
                 lines = pdbgen.flatten(items)
         inputs.append(("gen%d" % i, pdbgen.text(lines)))
+    # a peptide plane parallel to a coordinate plane: a nitrogen and both its neighbours share one coordinate exactly
+    for i in range(2 if ctx.quick() else 10):
+        lines, ids = pdbgen.multichain(rnd, nchains=1)
+        al = pdbgen.align_peptide_plane(rnd, lines)
+        if al is not None:
+            inputs.append(("plane-aligned%d" % i, pdbgen.text(al)))
     sbad, wbad, obad = [], [], []
     calls = []
     rots = pdbgen.rotations24()
